@@ -8,7 +8,9 @@ use vstd::utf8::*;
 pub fn __string_from_chars(v: Vec<char>) -> (r: String) ensures r@ == v@ { v.into_iter().collect() }
 // R22: char::encode_utf8(buf).as_bytes() is the UTF-8 encoding of the single char
 #[verifier::external_body]
-pub fn __encode_utf8_vec(c: char) -> (r: Vec<u8>) ensures r@ == encode_utf8(seq![c]) { let mut b = [0u8; 4]; c.encode_utf8(&mut b).as_bytes().to_vec() }
+pub fn __encode_utf8_bytes<'a>(c: char, buf: &'a mut [u8; 4]) -> (r: &'a [u8]) ensures r@ == encode_utf8(seq![c]) { c.encode_utf8(buf).as_bytes() }
+#[verifier::external_body]
+pub fn __vec_extend_slice<T: Clone>(v: &mut Vec<T>, it: &[T]) ensures final(v)@ == old(v)@ + it@ { v.extend_from_slice(it) }
 // R14 (shared with the config prelude): Vec::extend appends in order
 #[verifier::external_body]
 pub fn __vec_extend<T>(v: &mut Vec<T>, it: Vec<T>) ensures final(v)@ == old(v)@ + it@ { v.extend(it) }
@@ -94,3 +96,25 @@ pub uninterp spec fn str_trim(s: Seq<char>) -> Seq<char>;
 pub assume_specification [str::trim_end] (s: &str) -> (r: &str) ensures r@ == str_trim_end(s@), is_prefix_of(r@, s@);
 pub assume_specification [str::trim_start] (s: &str) -> (r: &str) ensures r@ == str_trim_start(s@), is_suffix_of(r@, s@);
 pub assume_specification [str::trim] (s: &str) -> (r: &str) ensures r@ == str_trim(s@), r@.len() <= s@.len();
+
+// String::from_utf8: Ok exactly on valid UTF-8, and then the string's encoding is the input
+#[verifier::external_type_specification]
+#[verifier::external_body]
+pub struct ExFromUtf8Error(std::string::FromUtf8Error);
+pub assume_specification [String::from_utf8] (v: Vec<u8>) -> (r: core::result::Result<String, std::string::FromUtf8Error>)
+    ensures (r is Ok) == valid_utf8(v@), r is Ok ==> encode_utf8(r->Ok_0@) == v@;
+// unicode_categories::UnicodeCategories::is_other (general categories Cc, Cf, Cn, Co, Cs): uninterpreted
+pub uninterp spec fn is_other(c: char) -> bool;
+#[verifier::external_body]
+pub fn __is_other(c: char) -> (r: bool) ensures r == is_other(c) { unimplemented!() }
+
+/// every non-empty sequence is its head followed by its tail (stated with a trigger on `skip(1)` so that it
+/// fires for the iterator's pre-`next()` state, which has no name inside a `while let` body)
+pub proof fn lemma_head_skip()
+    ensures forall|s: Seq<char>| #![trigger s.skip(1)] s.len() > 0 ==> s == seq![s[0]] + s.skip(1),
+{
+    assert forall|s: Seq<char>| #![trigger s.skip(1)] s.len() > 0 implies s == seq![s[0]] + s.skip(1) by {
+        assert(s =~= seq![s[0]] + s.skip(1));
+    }
+}
+
